@@ -550,7 +550,9 @@ class Result(JsonSerializable):
                                              and total.ndim == 0):
             total = total.item()
 
-        self.num_updates += 1
+        # Note that `num_updates` is only increased in the end, after the
+        # update was successful: an update that raises an exception must
+        # leave the Result object as it was.
 
         # xxxxxxxxxxxxxxxxxxxxxxxxxxxxxxxxxxxxxxxxxxxxxxxxxxxxxxxxxxxxxxxxx
         # Python does not have a switch statement. We use dictionaries as
@@ -588,10 +590,12 @@ class Result(JsonSerializable):
                        "updating a Result object of the RATIOTYPE type.")
                 raise ValueError(msg)
 
+            # Compute the ratio first: if it fails (zero total) nothing
+            # was changed yet
+            result = p_value / p_total
+
             self._value += p_value
             self._total += p_total
-
-            result = p_value / p_total
             self._result_sum += result
             self._result_squared_sum += result**2
 
@@ -633,6 +637,7 @@ class Result(JsonSerializable):
         # __default_update is called.
         possible_updates.get(self._update_type_code, __default_update)(value,
                                                                        total)
+        self.num_updates += 1
 
     def merge(self, other: "Result") -> None:
         """
